@@ -86,6 +86,7 @@ func NewBlankState() *State {
 func (s *State) Reset() {
 	s.env = s.rootEnv
 	s.depth = 0
+	s.PipeVal = nil
 }
 
 // RegisterTrie sets up the Trie to record all top level ids and functions.
